@@ -123,6 +123,22 @@ func c15Neg(p grpK1Pt) grpK1Pt {
 }
 
 // random curve point: k·G for a random k (never ∞ unless k ≡ 0)
+// k1Beta is a primitive cube root of unity mod p: (x, y) ↦ (β·x, y) maps the curve y² = x³ + 7 to
+// itself, so P and c15EqualY(P) are distinct points with the SAME y (and −c15EqualY(P) shares −y).
+var k1Beta, _ = new(big.Int).SetString("7ae96a2b657c07106e64479eac3434e99cf0497512f58995c1396c28719501ee", 16)
+
+func c15EqualY(r *vf.Rand, P grpK1Pt) grpK1Pt {
+	if P.Inf {
+		return P
+	}
+	b := new(big.Int).Set(k1Beta)
+	if r.Bool() {
+		b.Mul(b, k1Beta).Mod(b, k1P) // β²
+	}
+	x := new(big.Int).Mul(P.X, b)
+	return grpK1Pt{X: x.Mod(x, k1P), Y: new(big.Int).Set(P.Y)}
+}
+
 func c15RandPoint(r *vf.Rand) grpK1Pt {
 	k := new(big.Int).SetBytes(r.Bytes(32))
 	if r.Intn(8) == 0 {
@@ -233,6 +249,8 @@ func execC15Jac(c *vf.Ctx, cs c15Case, fail func(kind, class, what, obs, req str
 				c.Count("jadd:P+P")
 			case c15PtEq(pa, c15Neg(pb)):
 				c.Count("jadd:P+(-P)")
+			case pa.Y.Cmp(pb.Y) == 0:
+				c.Count("jadd:equal-y")
 			default:
 				c.Count("jadd:generic")
 			}
@@ -711,7 +729,7 @@ func genC15(r *vf.Rand) c15Case {
 		cs := c15Case{Kind: "jac", Op: op}
 		P := c15RandPoint(r)
 		var Q grpK1Pt
-		switch r.Intn(7) {
+		switch r.Intn(8) {
 		case 0:
 			Q = P // P + P (different representatives)
 		case 1:
@@ -722,6 +740,8 @@ func genC15(r *vf.Rand) c15Case {
 			P, Q = grpK1Inf(), c15RandPoint(r)
 		case 4:
 			P, Q = grpK1Inf(), grpK1Inf()
+		case 5:
+			Q = c15EqualY(r, P) // same y, different x: R = 0 with H ≠ 0 in the Jacobian addition
 		default:
 			Q = c15RandPoint(r)
 		}
@@ -748,7 +768,7 @@ func genC15(r *vf.Rand) c15Case {
 		op := []string{"isOnCurve", "isOnCurve", "newPoint", "add", "double", "scalarMult", "scalarBaseMult", "combinedMult"}[r.Intn(8)]
 		cs := c15Case{Kind: "curve", Op: op, K: c15Scalar(r), K2: c15Scalar(r)}
 		P, Q := c15RandPoint(r), c15RandPoint(r)
-		switch r.Intn(6) {
+		switch r.Intn(7) {
 		case 0:
 			Q = P
 		case 1:
@@ -757,6 +777,8 @@ func genC15(r *vf.Rand) c15Case {
 			Q = grpK1Inf()
 		case 3:
 			P = grpK1Inf()
+		case 4:
+			Q = c15EqualY(r, P)
 		}
 		px, py := grpK1Affine(P)
 		qx, qy := grpK1Affine(Q)
